@@ -20,6 +20,7 @@ EXPLANATION = ("PANIC / PROGRESS / RECUR rules over the resolved MIR of everythi
                "Stack exhaustion at the depth limit, allocation failure and panics inside dependencies are not decided.")
 ASSUMPTIONS = ["rustc's MIR (opt-level 0, overflow and bounds checks explicit) faithfully represents the compiled crate",
                "tier-3 rows are a reading of the code, not a proof; dependencies (saphyr-parser, annotate-snippets, regex, encoding_rs_io) do not panic or hang",
+               "the target's Deserialize implementation consumes at least one event when handed a document (a hand-written impl that ignores its deserializer makes from_multiple / the iterators loop forever on the same document: observed, not repaired, DESIGN section 6)",
                "an 8 MiB stack suffices at the default depth limit: frame sizes x recursion depth is a code-generation quantity and is NOT decided (declared not applicable in DESIGN §4 C01)"]
 
 # recursion census: SCCs of the crate-local call graph (resolved callees; visitor callbacks are
@@ -304,13 +305,29 @@ def rule_progress(ctx, fx, config):
                 ctx.check(zero_exit, "PROGRESS", "C01:PROGRESS:read-zero:%s" % f.npath, "a zero-length read leaves the read loop",
                           "%s loops on Read::read without leaving the loop when it returns Ok(0): an input that ends inside the awaited bytes spins forever" % f.npath, config, ctx.where(f, rb))
     ctx.floor("PROGRESS.read-loops", nread, 2, config)
-    its = proto.iterator_nexts(fx)
+    its = list(proto.iterator_nexts(fx)) + [g for g in fx.fns.values() if g.name in ("from_multiple_with_options", "from_multiple_with_options_valid", "from_multiple_with_options_validate") and g.sccs()]
     for f in its:
-        nexts = [b for b, t in f.calls() if fx.callee(t) == proto.NEXT]
+        adv = _consuming_blocks(f, fx)
         for comp in f.sccs():
             n += 1
-            ctx.check(bool(set(nexts) & comp), "PROGRESS", "C01:PROGRESS:%s" % f.npath, "every cycle of the iterator loop consumes an event", "the iterator loop has a cycle that consumes nothing", config, ctx.where(f))
+            rest = comp - adv
+            still = f.sccs(rest) if rest else []
+            ctx.check(not still, "PROGRESS", "C01:PROGRESS:%s" % f.npath, "every cycle of the document loop consumes an event, hands the source to the target's Deserialize, or skips to the next document",
+                      "the document loop of %s has a cycle that neither consumes an event nor deserializes / skips a document (possible hang)" % f.npath, config, ctx.where(f, min(comp)))
     ctx.floor("PROGRESS.loops", n, 14, config)
+
+
+def _consuming_blocks(f, fx):
+    """blocks of a document loop that make progress: Events::next, skip_to_next_document, or a call that receives a root
+    deserializer over the event source (T::deserialize / DeserializeSeed / with_document_scope closure doing so)"""
+    adv = set()
+    for b, t in f.calls():
+        c = fx.callee(t)
+        if c == proto.NEXT or c.endswith("::skip_to_next_document") or c.endswith("with_document_scope"):
+            adv.add(b)
+        if t["f"].get("name") == "deserialize" and ("Deserialize" in str(t["f"].get("trait")) or "serde" in fx.callee_decl(t)):
+            adv.add(b)
+    return adv
 
 
 def rule_recur(ctx, fx, config):
